@@ -82,8 +82,14 @@ def run_scratch(sid: str, tier: str):
         p = sh([str(VERIF / "bin/check"), prop, "--tier", tier], env=env, cwd=str(VERIF))
         vio = [l for l in p.stdout.splitlines() if l.startswith("VIOLATION")]
         cls = [l.strip() for l in p.stdout.splitlines() if l.strip().startswith("violation class=")]
+        replay_exit = None
+        if vio:
+            # the first replay file must reproduce in a fresh process on the changed tree
+            rp = vio[0].split("replay=", 1)[1].strip()
+            replay_exit = sh([str(VERIF / "bin/check"), prop, "--replay", rp], env=env, cwd=str(VERIF)).returncode
         return {"id": sid, "property": prop, "tier": tier, "mode": "scratch worktree via VERIF_REPO", "exit": p.returncode,
-                "caught": p.returncode == 1 and bool(vio), "wall_s": round(time.time() - t0, 1),
+                "caught": p.returncode == 1 and bool(vio), "replay_exit_on_changed_tree": replay_exit,
+                "wall_s": round(time.time() - t0, 1),
                 "first_violation": cls[0][:300] if cls else None, "tail": "" if vio else p.stdout[-400:]}
     finally:
         sh(["git", "-C", str(REPO), "worktree", "remove", "--force", str(wt)])
